@@ -209,6 +209,42 @@ pub fn run(g: &mut Global) {
         &check,
     );
     g.random("random", g.tier.pick(20_000, 5_000_000), &random_strategy, &check);
+    // long chains of setter calls (up to 120 per build): "last value wins" must not depend on how many
+    // calls were made; one field is left out in a third of the chains
+    g.random(
+        "long_chains",
+        g.tier.pick(20_000, 400_000),
+        &|| {
+            (vec((0u8..5, prop_oneof![3 => -50.0f64..150.0, 1 => (0usize..11).prop_map(|i| LATTICE[i])]), 20..=120), 0u8..15)
+                .prop_map(|(cs, skip)| Case { calls: cs.into_iter().filter(|(i, _)| *i != skip).map(|(i, x)| (i, X(x))).collect() })
+                .boxed()
+        },
+        &check,
+    );
+    // neighbouring doubles: every field at b - 1ulp, b, b + 1ulp (any tolerance in a comparison shows here)
+    const NB: [f64; 5] = [1.0, 100.1, 1e-300, 1e300, 6.02e23];
+    g.exhaustive(
+        "one_ulp_neighbours",
+        5 * 81 * 5 * 6,
+        &|i| {
+            let ord = (i % 6) as usize;
+            let r = i / 6;
+            let vi = (r % 5) as usize;
+            let r = r / 5;
+            let d = digits(r % 81, 3, 4);
+            let b = NB[(r / 81) as usize % 5];
+            let nb = |j: usize| match j {
+                0 => f64::from_bits(b.to_bits() - 1),
+                1 => b,
+                _ => f64::from_bits(b.to_bits() + 1),
+            };
+            let vol = [0.0, -0.0, 5e-324, -5e-324, 1.0][vi];
+            let vals = [nb(d[0]), nb(d[1]), nb(d[2]), nb(d[3]), vol];
+            let p = perm(ord * 17 % 120);
+            Case { calls: p.iter().map(|&j| (j, X(vals[j as usize]))).collect() }
+        },
+        &check,
+    );
     if g.tier == Tier::Thorough {
         // raw 64-bit patterns under libFuzzer's comparison tracing: the only generator here that can hit a
         // single magic bit pattern (a sentinel NaN payload, say)
